@@ -148,8 +148,8 @@ Proof.
     destruct (is_valid (resolve_from_cache c now ty (alias_of (e_rr q)))).
     + specialize (IH rset Hin Hsoon Hmem Hv).
       destruct (ru_ptrs c now ty ch updated rest rset) as [[[[o res] unres] rem] rset']. simpl in *. now right.
-    + specialize (IH (set_remove (alias_of (e_rr q)) rset) Hin Hsoon Hmem Hv).
-      destruct (ru_ptrs c now ty ch updated rest (set_remove (alias_of (e_rr q)) rset))
+    + specialize (IH rset Hin Hsoon Hmem Hv).
+      destruct (ru_ptrs c now ty ch updated rest rset)
         as [[[[o res] unres] rem] rset']. simpl in *. assumption.
 Qed.
 
@@ -231,8 +231,8 @@ Proof.
   destruct (is_valid (resolve_from_cache c now ty (alias_of (e_rr p)))) eqn:Ev.
   - specialize (IH rset t i). destruct (ru_ptrs c now ty ch updated rest rset) as [[[[o res] unres] rem] rset'].
     simpl in *. assumption.
-  - specialize (IH (set_remove (alias_of (e_rr p)) rset) t i).
-    destruct (ru_ptrs c now ty ch updated rest (set_remove (alias_of (e_rr p)) rset))
+  - specialize (IH rset t i).
+    destruct (ru_ptrs c now ty ch updated rest rset)
       as [[[[o res] unres] rem] rset']. simpl in *.
     intros H. apply in_app_iff in H as [H|H]; [|auto].
     destruct (mem (alias_of (e_rr p)) rset); [|destruct H]. destruct H as [H|[]]. inversion H; subst. auto.
@@ -271,8 +271,8 @@ Proof.
   destruct (is_valid (resolve_from_cache c now ty (alias_of (e_rr p)))).
   - specialize (IH rset ch' t i). destruct (ru_ptrs c now ty ch updated rest rset) as [[[[o res] unres] rem] rset'].
     simpl in *. intros [H|H]; [discriminate|auto].
-  - specialize (IH (set_remove (alias_of (e_rr p)) rset) ch' t i).
-    destruct (ru_ptrs c now ty ch updated rest (set_remove (alias_of (e_rr p)) rset))
+  - specialize (IH rset ch' t i).
+    destruct (ru_ptrs c now ty ch updated rest rset)
       as [[[[o res] unres] rem] rset']. simpl in *. assumption.
 Qed.
 
@@ -309,3 +309,93 @@ Theorem evict_removed_has_ptr s now ch t i :
   In (OEvt ch (ERemoved t i)) (notify_removal (s_q s) (snd (evict_services (s_cache s) now))) ->
   exists ptrs p, In (t, ptrs) (c_ptr (s_cache s)) /\ In p ptrs /\ alias_of (e_rr p) = i.
 Proof. intros H. apply notify_removal_In in H. now apply evict_reported_has_ptr in H. Qed.
+
+(* ---- an instance that became invalid is reported under EVERY browsed name (repair f108398) ---------- *)
+
+Lemma ru_ptrs_removed_complete c now ty ch updated p rset : forall ptrs,
+  In p ptrs -> expires_soon p now = false -> mem (alias_of (e_rr p)) updated = true ->
+  is_valid (resolve_from_cache c now ty (alias_of (e_rr p))) = false ->
+  mem (alias_of (e_rr p)) rset = true ->
+  In (ty, alias_of (e_rr p)) (snd (fst (ru_ptrs c now ty ch updated ptrs rset))).
+Proof.
+  induction ptrs as [|q rest IH]; intros Hin Hsoon Hmem Hv Hr; simpl; [destruct Hin|].
+  destruct Hin as [->|Hin].
+  - rewrite Hsoon, Hmem, Hv. simpl.
+    destruct (ru_ptrs c now ty ch updated rest rset) as [[[[o res] unres] rem] rset']. simpl.
+    rewrite Hr. now left.
+  - specialize (IH Hin Hsoon Hmem Hv Hr).
+    destruct (negb (expires_soon q now) && mem (alias_of (e_rr q)) updated); [|assumption].
+    destruct (is_valid (resolve_from_cache c now ty (alias_of (e_rr q))));
+      destruct (ru_ptrs c now ty ch updated rest rset) as [[[[o res] unres] rem] rset']; simpl in *; [assumption|].
+    apply in_app_iff. now right.
+Qed.
+
+Lemma ru_ptrs_rset c now ty ch updated rset : forall ptrs,
+  snd (ru_ptrs c now ty ch updated ptrs rset) = rset.
+Proof.
+  induction ptrs as [|q rest IH]; simpl; [reflexivity|].
+  destruct (negb (expires_soon q now) && mem (alias_of (e_rr q)) updated); [|assumption].
+  destruct (is_valid (resolve_from_cache c now ty (alias_of (e_rr q))));
+    destruct (ru_ptrs c now ty ch updated rest rset) as [[[[o res] unres] rem] rset']; simpl in *; assumption.
+Qed.
+
+Lemma ru_types_removed_complete c now q updated ty ch ptrs p rset : forall ptr,
+  In (ty, ptrs) ptr -> q_get ty q = Some ch ->
+  In p ptrs -> expires_soon p now = false -> mem (alias_of (e_rr p)) updated = true ->
+  is_valid (resolve_from_cache c now ty (alias_of (e_rr p))) = false ->
+  mem (alias_of (e_rr p)) rset = true ->
+  In (ty, alias_of (e_rr p)) (snd (fst (ru_types c now q updated ptr rset))).
+Proof.
+  induction ptr as [|[ty0 ptrs0] rest IH]; intros Hin Hq Hp Hsoon Hmem Hv Hr; simpl; [destruct Hin|].
+  destruct Hin as [Hin|Hin].
+  - inversion Hin; subst. rewrite Hq.
+    pose proof (ru_ptrs_removed_complete c now ty ch updated p rset ptrs Hp Hsoon Hmem Hv Hr) as H.
+    destruct (ru_ptrs c now ty ch updated ptrs rset) as [[[[o1 res1] un1] rem1] rset1]. simpl in H.
+    destruct (ru_types c now q updated rest rset1) as [[[[o2 res2] un2] rem2] rset2]. simpl.
+    apply in_app_iff. now left.
+  - destruct (q_get ty0 q) as [ch0|]; [|now apply IH].
+    pose proof (ru_ptrs_rset c now ty0 ch0 updated rset ptrs0) as Hs.
+    destruct (ru_ptrs c now ty0 ch0 updated ptrs0 rset) as [[[[o1 res1] un1] rem1] rset1]. simpl in Hs. subst rset1.
+    specialize (IH Hin Hq Hp Hsoon Hmem Hv Hr).
+    destruct (ru_types c now q updated rest rset) as [[[[o2 res2] un2] rem2] rset2]. simpl in *.
+    apply in_app_iff. now right.
+Qed.
+
+Lemma q_get_In ty q ch : q_get ty q = Some ch -> In (ty, ch) q.
+Proof.
+  induction q as [|[t c] r IH]; simpl; [discriminate|]. destruct (beq ty t) eqn:E.
+  - intros H. inversion H; subst. apply beq_eq in E. subst. now left.
+  - intros H. right. auto.
+Qed.
+
+Lemma In_dedup (l : list bytes) x : In x l -> In x (dedup l).
+Proof.
+  induction l as [|y l IH]; simpl; [tauto|]. intros [->|H].
+  - destruct (mem x l) eqn:E; [apply IH; now apply mem_In|now left].
+  - destruct (mem y l); [auto|right; auto].
+Qed.
+
+Lemma notify_removal_complete q ex ty ch i :
+  In (ty, ch) q -> In (ty, i) ex -> In (OEvt ch (ERemoved ty i)) (notify_removal q ex).
+Proof.
+  intros Hq Hex. unfold notify_removal. apply in_flat_map. exists (ty, ch). split; [assumption|]. simpl.
+  apply in_map_iff. exists i. split; [reflexivity|]. apply In_dedup. apply in_map_iff. exists (ty, i).
+  split; [reflexivity|]. apply filter_In. split; [assumption|]. simpl. apply beq_refl.
+Qed.
+
+(* every browsed ty_domain that has a PTR (more than one second left) to an updated instance
+   that was reported resolved and cannot be resolved any more gets ServiceRemoved *)
+Theorem invalid_reported_under_every_name s now updated ty ch ptrs p :
+  In (ty, ptrs) (c_ptr (s_cache s)) -> q_get ty (s_q s) = Some ch ->
+  In p ptrs -> expires_soon p now = false -> mem (alias_of (e_rr p)) updated = true ->
+  is_valid (resolve_from_cache (s_cache s) now ty (alias_of (e_rr p))) = false ->
+  mem (alias_of (e_rr p)) (s_resolved s) = true ->
+  In (OEvt ch (ERemoved ty (alias_of (e_rr p)))) (snd (resolve_updated s now updated)).
+Proof.
+  intros Hin Hq Hp Hsoon Hmem Hv Hr. unfold resolve_updated. destruct updated as [|u us]; [discriminate|].
+  pose proof (ru_types_removed_complete (s_cache s) now (s_q s) (u :: us) ty ch ptrs p (s_resolved s)
+                (c_ptr (s_cache s)) Hin Hq Hp Hsoon Hmem Hv Hr) as H.
+  destruct (ru_types (s_cache s) now (s_q s) (u :: us) (c_ptr (s_cache s)) (s_resolved s))
+    as [[[[o res] unres] rem] rset]. simpl in *. apply in_app_iff. right.
+  apply notify_removal_complete; [now apply q_get_In|assumption].
+Qed.
